@@ -9,6 +9,8 @@ induction over values of ANY size and nesting depth:
   C31_roundtrip_setup    the instance used for placement setups: the dict {"config", "object_list", "constraints"}
   C31_reserved_rejected  a dict with one of the four reserved keys is rejected by the export (instead of exporting
                          something that imports to a different value)
+  C31_import_key_order   importing a JSON object is invariant under any permutation of its entries (distinct keys) up to the
+                         order of the resulting keyword arguments / dict entries: `sort_keys=True` cannot change the result
   asFound_value_key / asFound_dtype_key   refutation witnesses for the pinned tree (only two keys asserted): a dict with key
                          `__value__` exported and re-imported to a DIFFERENT value; one with `__dtype__` failed to import
 
@@ -17,6 +19,8 @@ array data is a number or nested lists of numbers.
 -/
 import FdtdxModel.C31
 import Mathlib.Tactic.Ring
+import Mathlib.Data.List.Perm.Basic
+import Mathlib.Data.List.Nodup
 
 namespace Fdtdx.C31
 
@@ -300,6 +304,166 @@ theorem asFound_dtype_key :
   have a : ("__module__" == "__dtype__") = false := by decide
   have b : ("__name__" == "__dtype__") = false := by decide
   simp [importFields, c, importJ, assemble, lookupV, List.find?, a, b]
+
+/-! ### the import does not depend on key order -/
+
+/-- results that differ at most in the order of the keyword arguments / dict entries -/
+inductive FieldPerm : Option Val → Option Val → Prop
+  | none : FieldPerm Option.none Option.none
+  | same (v : Val) : FieldPerm (some v) (some v)
+  | dict (r r' : List (String × Val)) : r.Perm r' → FieldPerm (some (.dict r)) (some (.dict r'))
+  | obj (m n : String) (r r' : List (String × Val)) : r.Perm r' → FieldPerm (some (.obj m n r)) (some (.obj m n r'))
+
+/-- both fail, or both succeed with permuted entries -/
+def ORel (a b : Option (List (String × Val))) : Prop :=
+  (a = Option.none ∧ b = Option.none) ∨ ∃ x y, a = some x ∧ b = some y ∧ x.Perm y
+
+def entry (p : String × J) : Option Val := if p.1 == "__value__" then importPayload p.2 else importJ p.2
+
+theorem importFields_cons (p : String × J) (rest : List (String × J)) :
+    importFields (p :: rest) =
+      match entry p, importFields rest with
+      | some a, some b => some ((p.1, a) :: b)
+      | _, _ => Option.none := by
+  obtain ⟨k, v⟩ := p
+  simp only [importFields, entry]
+  cases (if (k == "__value__") = true then importPayload v else importJ v) <;> cases importFields rest <;> rfl
+
+theorem importFields_perm {kvs kvs' : List (String × J)} (h : kvs.Perm kvs') : ORel (importFields kvs) (importFields kvs') := by
+  induction h with
+  | nil => right; exact ⟨[], [], rfl, rfl, List.Perm.refl _⟩
+  | cons p _ ih =>
+    rw [importFields_cons, importFields_cons]
+    rcases ih with ⟨h1, h2⟩ | ⟨x, y, h1, h2, hp⟩
+    · left; rw [h1, h2]; cases entry p <;> exact ⟨rfl, rfl⟩
+    · rw [h1, h2]
+      cases entry p with
+      | none => left; exact ⟨rfl, rfl⟩
+      | some a => right; exact ⟨_, _, rfl, rfl, hp.cons _⟩
+  | swap p q l =>
+    rw [importFields_cons, importFields_cons, importFields_cons, importFields_cons]
+    cases entry p <;> cases entry q <;> cases importFields l <;>
+      first
+        | (left; exact ⟨rfl, rfl⟩)
+        | (right; exact ⟨_, _, rfl, rfl, List.Perm.swap _ _ _⟩)
+  | trans _ _ ih1 ih2 =>
+    rcases ih1 with ⟨h1, h2⟩ | ⟨x, y, h1, h2, hp⟩
+    · rcases ih2 with ⟨h3, h4⟩ | ⟨x', y', h3, h4, hp'⟩
+      · left; exact ⟨h1, h4⟩
+      · rw [h2] at h3; cases h3
+    · rcases ih2 with ⟨h3, h4⟩ | ⟨x', y', h3, h4, hp'⟩
+      · rw [h2] at h3; cases h3
+      · right
+        rw [h2] at h3; injection h3 with h3; subst h3
+        exact ⟨x, y', h1, h4, hp.trans hp'⟩
+
+theorem importFields_keys : ∀ (kvs : List (String × J)) (fs : List (String × Val)),
+    importFields kvs = some fs → fs.map (·.1) = kvs.map (·.1)
+  | [], fs, h => by simp [importFields] at h; subst h; rfl
+  | p :: rest, fs, h => by
+    rw [importFields_cons] at h
+    cases he : entry p with
+    | none => simp [he] at h
+    | some a =>
+      cases hr : importFields rest with
+      | none => simp [he, hr] at h
+      | some b =>
+        simp [he, hr] at h
+        subst h
+        simp [importFields_keys rest b hr]
+
+theorem lookupV_some_iff (fs : List (String × Val)) (hnd : (fs.map (·.1)).Nodup) (k : String) (v : Val) :
+    lookupV fs k = some v ↔ (k, v) ∈ fs := by
+  induction fs with
+  | nil => simp [lookupV]
+  | cons p rest ih =>
+    obtain ⟨k', v'⟩ := p
+    simp only [List.map_cons, List.nodup_cons] at hnd
+    have ih' := ih hnd.2
+    unfold lookupV at ih' ⊢
+    by_cases hk : k' = k
+    · subst hk
+      simp only [List.find?, beq_self_eq_true, List.mem_cons, Prod.mk.injEq, true_and]
+      constructor
+      · intro h; injection h with h; exact Or.inl h.symm
+      · rintro (h | h)
+        · rw [h]
+        · exact absurd (List.mem_map_of_mem (f := (·.1)) h) hnd.1
+    · have : (k' == k) = false := by simpa using hk
+      simp only [List.find?, this, List.mem_cons, Prod.mk.injEq]
+      rw [ih']
+      constructor
+      · intro h; exact Or.inr h
+      · rintro (⟨h, _⟩ | h)
+        · exact absurd h.symm hk
+        · exact h
+
+theorem lookupV_perm {fs fs' : List (String × Val)} (hp : fs.Perm fs') (hnd : (fs.map (·.1)).Nodup) (k : String) :
+    lookupV fs k = lookupV fs' k := by
+  have hnd' : (fs'.map (·.1)).Nodup := (hp.map _).nodup_iff.mp hnd
+  apply Option.ext
+  intro v
+  rw [lookupV_some_iff fs hnd, lookupV_some_iff fs' hnd', hp.mem_iff]
+
+theorem assemble_perm {fs fs' : List (String × Val)} (hp : fs.Perm fs') (hnd : (fs.map (·.1)).Nodup) :
+    FieldPerm (assemble fs) (assemble fs') := by
+  have hd : dropMeta fs |>.Perm (dropMeta fs') := hp.filter _
+  unfold assemble
+  rw [← lookupV_perm hp hnd "__dtype__", ← lookupV_perm hp hnd "__module__", ← lookupV_perm hp hnd "__name__",
+    ← lookupV_perm hp hnd "__value__"]
+  cases lookupV fs "__dtype__" with
+  | some d => cases d <;> first | exact FieldPerm.none | exact FieldPerm.same _
+  | none =>
+    cases lookupV fs "__module__" with
+    | none => exact FieldPerm.none
+    | some m =>
+      cases m <;> try exact FieldPerm.none
+      rename_i m
+      cases lookupV fs "__name__" with
+      | none => exact FieldPerm.none
+      | some n =>
+        cases n <;> try exact FieldPerm.none
+        rename_i n
+        cases lookupV fs "__value__" with
+        | some p =>
+          cases p <;> simp only <;> (try exact FieldPerm.none) <;> (try exact FieldPerm.same _) <;>
+            (split <;> first | exact FieldPerm.none | exact FieldPerm.same _ | skip)
+          all_goals (split <;> first | exact FieldPerm.none | exact FieldPerm.same _ | skip)
+          all_goals (split <;> first | exact FieldPerm.none | exact FieldPerm.same _)
+        | none =>
+          simp only
+          split
+          · exact FieldPerm.dict _ _ hd
+          · exact FieldPerm.obj _ _ _ _ hd
+
+/-- C31_import_key_order: importing a JSON object does not depend on the order of its entries (keys distinct, as in
+every JSON document): `json.dumps(sort_keys=True)` cannot change what is imported, only the order in which the keyword
+arguments / dict entries are listed. -/
+theorem C31_import_key_order (kvs kvs' : List (String × J)) (hp : kvs.Perm kvs') (hnd : (kvs.map (·.1)).Nodup) :
+    FieldPerm (importJ (.obj kvs)) (importJ (.obj kvs')) := by
+  simp only [importJ]
+  rcases importFields_perm hp with ⟨h1, h2⟩ | ⟨x, y, h1, h2, hxy⟩
+  · rw [h1, h2]; exact FieldPerm.none
+  · rw [h1, h2]
+    simp only [Option.bind]
+    have hk : (x.map (·.1)).Nodup := by rw [importFields_keys kvs x h1]; exact hnd
+    exact assemble_perm hxy hk
+
+/-- non-vacuity: an exported TreeClass object, its entries in export order and in the order `sort_keys` produces -/
+def kvs0 : List (String × J) :=
+  [("__module__", .str "fdtdx.x"), ("__name__", .str "Box"), ("shape", wrap "builtins" "tuple" [("__value__", .arr [.num (.int 2), .null])]),
+   ("name", .str "Cube")]
+def kvs0sorted : List (String × J) :=
+  [("__module__", .str "fdtdx.x"), ("__name__", .str "Box"), ("name", .str "Cube"),
+   ("shape", wrap "builtins" "tuple" [("__value__", .arr [.num (.int 2), .null])])]
+
+example : (kvs0.map (·.1)).Nodup ∧ kvs0.Perm kvs0sorted ∧ (importJ (.obj kvs0)).isSome = true := by
+  refine ⟨by decide, ?_, by decide⟩
+  unfold kvs0 kvs0sorted
+  exact (List.Perm.swap _ _ _).cons _ |>.cons _
+
+example : FieldPerm (importJ (.obj kvs0)) (importJ (.obj kvs0sorted)) :=
+  C31_import_key_order kvs0 kvs0sorted (by unfold kvs0 kvs0sorted; exact (List.Perm.swap _ _ _).cons _ |>.cons _) (by decide)
 
 /-! ### non-vacuity: a nested setup-like value in the fragment -/
 example : Ser (.dict [("config", .obj "fdtdx.config" "SimulationConfig" [("time", .num (.flt 0)), ("dtype", .dtype "jax.numpy.float32")]),
